@@ -35,3 +35,105 @@ def proof_failure_verdict(ctx, found_failing_input):
     V.violation(ctx, "proof:" + str(info.get("failed_at")),
                 {"kind": "proof-obligation-broken", "where": info.get("failed_at"),
                  "detail": info.get("failed"), "theorems": ctx.cov.get("property_theorems")}, nofail=True)
+
+
+# ------------------------------------------------------------------ application-level checks
+KNOWN_KEYS = {1: "frozen-key-collision:genesis-hash", 2: "reward-withheld:block-1-staking",
+              3: "valset-diverges:genesis-validator-leaves-in-block-1"}
+
+APP_ASSUME = [
+    "Spec.v is a hand-written cache-free model of node/app.go + the account, stake and gov controllers; it is tied to the code by running it on the histories the harness just executed on the real RigoApp (responses, validator updates, and the whole projected state after every commit)",
+    "transactions reach the model decoded; the signature check is summarised by one flag computed by the harness (signed by From's key, for the node's chain id, no field altered afterwards); byte-level soundness of that check is property C03",
+    "Tendermint's delivery discipline: consecutive heights, LastCommitInfo of block h taken from the validator set two blocks after the updates that produced it (the harness's consensus simulator)",
+    "IAVL / goleveldb / protobuf / JSON encoders are trusted; what they return is compared, not proved",
+]
+
+
+def app_check(ctx, prop, props_v, theorems, codes, pred, extra_assume, known_classes=(), histories=None, blocks=None,
+              profile="corpus", nontrivial_rule="", extra_evals=None):
+    """proof stage + model-vs-RigoApp on generated histories, restricted to the projection `codes`,
+    + the property predicate `pred` on the implementation's and on the model's observations"""
+    assume = APP_ASSUME + list(extra_assume)
+    if props_v:
+        proofs(ctx, props_v, theorems)
+    else:
+        ctx.proof_ok, ctx.proof_info = True, {}
+    binp, out = V.go_build(ctx)
+    if binp is None:
+        V.violation(ctx, "harness-build", {"kind": "harness-does-not-build", "detail": out[-3000:]}, nofail=True)
+        V.write_evidence(ctx, "proof", {}, assume)
+        return None
+    nh = histories or (6 if ctx.quick() else 120)
+    nb = blocks or (40 if ctx.quick() else 70)
+    shards = 3 if ctx.quick() else 15
+    evals = "bad=check_props [%s] %s" % (";".join(str(c) for c in codes), pred)
+    if extra_evals:
+        evals += "|" + extra_evals
+    files, stats, hist = [], [], {}
+    for s in range(shards):
+        f = os.path.join(ctx.scratch, "cases_app_%d.v" % s)
+        st = os.path.join(ctx.scratch, "astats_%d.json" % s)
+        prof = profile if s == 0 else profile.replace("corpus", "")
+        rc, o = V.run_harness(ctx, binp, "app", ["-seed", ctx.seed * 1000 + s, "-n", max(1, nh // shards), "-blocks", nb, "-out", f,
+                                                "-scratch", ctx.scratch, "-stats", st, "-json", f + ".json", "-profile", prof, "-evals", evals])
+        if rc != 0:
+            V.violation(ctx, "harness-run", {"kind": "harness-failed", "detail": o[-3000:]}, nofail=True)
+            V.write_evidence(ctx, "proof", {}, assume)
+            return None
+        files.append(f)
+        stats.append(json.load(open(st)))
+    res = V.run_case_files(ctx, files, names=("bad",) + tuple(e.split("=")[0] for e in (extra_evals or "").split("|") if "=" in e))
+    found_input = False
+    for f, r in res.items():
+        if r["rc"] != 0 or r.get("bad") is None:
+            V.violation(ctx, "model-eval", {"kind": "model-evaluation-failed", "file": f, "detail": r["out"][-2000:]}, nofail=True)
+            continue
+        if not r["bad"]:
+            continue
+        hs = json.load(open(f + ".json"))
+        for (idx, diff, p_impl, p_model, classes) in r["bad"]:
+            h = hs[idx]
+            slim = {"Seed": h["Seed"], "Genesis": h["Genesis"], "Blocks": h["Blocks"], "WatchA": h["WatchA"], "WatchH": h["WatchH"],
+                    "StrTab": h["StrTab"], "OptTab": h["OptTab"]}
+            if p_impl is False:
+                known = [KNOWN_KEYS[c] for c in classes if c in known_classes]
+                key = known[0] if known else "trace-falsifies-" + pred
+                if not known:
+                    found_input = True
+                V.violation(ctx, key, {"kind": "implementation-trace-falsifies-predicate", "predicate": pred, "theorem": theorems[0] if theorems else None,
+                                       "model_trace_also_falsifies": p_model is False, "history": slim,
+                                       "how_to_replay": "vh app-replay -json <this file's history as a list> ; evaluate %s" % pred})
+            elif diff is not None:
+                V.violation(ctx, "correspondence:spec-vs-app:%s" % diff[1][1],
+                            {"kind": "model-implementation-divergence", "projection_codes": codes, "first_difference": {"observation_index": diff[1][0], "component": diff[1][1]},
+                             "correspondence": "Spec.v/AppRun.v vs RigoApp on the projection of %s" % prop, "history": slim,
+                             "searched": "predicate %s holds on this implementation trace" % pred}, nofail=True)
+            else:
+                V.violation(ctx, "model-trace-falsifies-" + pred, {"kind": "model-trace-falsifies-predicate", "predicate": pred, "history": slim}, nofail=True)
+    ctx.app_results = res
+    proof_failure_verdict(ctx, found_input)
+    agg = {}
+    for s in stats:
+        for k, v in s.items():
+            if isinstance(v, int):
+                agg[k] = agg.get(k, 0) + v
+            elif isinstance(v, dict):
+                d = agg.setdefault(k, {})
+                for kk, vv in v.items():
+                    d[kk] = d.get(kk, 0) + vv
+            elif isinstance(v, list) and v:
+                agg.setdefault(k, []).extend(v)
+    ctx.app_stats = agg
+    sample = open(files[-1]).read()
+    i = sample.find("(mk_case")
+    V.write_evidence(ctx, "proof", {
+        "traces_validated_against_impl": agg.get("Histories", 0),
+        "evaluations": agg.get("Txs", 0) + agg.get("Blocks", 0),
+        "distinct_nontrivial": agg.get("DistinctNontrivial", 0),
+        "rule": "histories of %d blocks generated online against the real node from one PRNG (all native transaction types, ~40%% invalid: nonce/price/gas/funds/signature/chain/payload/authorisation; evidence, missed votes, governance); plus hand-written corpus histories; compared: %s; predicate %s evaluated on the implementation's and on the model's observations. %s" % (nb, codes, pred, nontrivial_rule or "non-trivial = the history contains at least one block with validator updates"),
+        "blocks": agg.get("Blocks", 0), "transactions": agg.get("Txs", 0), "succeeded": agg.get("Succeeded", 0), "failed": agg.get("Failed", 0),
+        "distribution": agg.get("ByNote", {}), "corpus": agg.get("Corpus", []), "generator_errors": agg.get("Errors", []),
+        "samples": [sample[i:i + 1500]],
+        "exhaustive": False,
+    }, assume)
+    return res
